@@ -338,6 +338,9 @@ def run(prog, rep):
     rule_pack(prog, rep)
     rule_statics(prog, rep)
     rule_share(prog, rep)
+    # the users of pack(): a Name keeps its own tag when it is given a location (C30.REPR, shared)
+    from .C30 import rule_repr
+    rule_repr(prog, rep)
     if rep.tier == "thorough":
         from .. import witness
         witness.run(rep, ["c31_send_sync", "c31_valid_immutable"])
